@@ -21,7 +21,7 @@ def make_replay(pid, fo, tup, seed):
     witness = None
     try:
         from . import witness as W
-        witness = W.search(pid, fo, seed)
+        witness = fo.get('witness') or W.search(pid, fo, seed)
     except ImportError:
         witness = None
     except Exception as e:  # witness search never decides anything
@@ -46,6 +46,13 @@ def replay(path):
     u = rec['unit']
     from . import registry
     ud = next((x for x in registry.UNITS if x['name'] == u), None)
+    if u == 'twin':
+        # thorough-tier exploration by an executable contract twin: only the witness is replayed
+        w = rec.get('witness') or {}
+        from . import witness as W
+        ok = bool(w.get('found')) and W.rerun(w)
+        print('twin %s: %s' % (w.get('case'), 'REPRODUCES against the real crate' if ok else 'does not reproduce'))
+        return 1 if ok else 0
     if ud is not None and ud['backend'] == 'kani':
         from . import kani
         r = kani.run_unit(ud, tup)
